@@ -7,6 +7,7 @@ R6 logs every step execution.  Oracle: sqlite3 with every integration ATTACHed e
 interpreted step by step with the documented meaning of each step on the same data, must give the same multiset of
 rows (same sequence under a total ORDER BY).  Disagreeing queries are reduced clause by clause before classification."""
 import copy
+import re
 import sqlite3
 
 from vf import core, monitors
@@ -78,7 +79,16 @@ def compare(text, ordered, kw, state, limit_mode=None):
         except MissingTable as e:
             # every table of the statement exists in its integration: a plan that asks an integration for a table it does not have
             # cannot return what the query returns
-            return 'differ', {'kind': 'fetch-of-a-table-the-integration-does-not-have', 'expected': exp, 'got': str(e)[:200], 'log': log, 'plan': plan}
+            msg = str(e)
+            kind = 'fetch-of-a-table-the-integration-does-not-have' if msg.startswith('no such table') else 'fetch-of-a-column-the-table-does-not-have'
+            m_ = re.match(r'no such column: "?(\w+)"?\.', msg)
+            if m_:
+                al = m_.group(1)
+                sql_ = msg.split('): ', 1)[-1]
+                if re.search(rf'\bAS {al}\b', text) and f'AS "{al}"' not in sql_:
+                    # executable model of C08-F6: the name is an alias of the ENCLOSING query, left in a sub-query that was planned as a fetch of its own
+                    kind = 'fetch-of-a-correlated-subquery-with-its-outer-reference'
+            return 'differ', {'kind': kind, 'expected': exp, 'got': msg[:300], 'log': log, 'plan': plan}
         except NotInterpretable as e:
             return 'skip:not-interpretable', str(e)[:160]
         kinds = sorted({k for k, _, _ in log})
